@@ -96,6 +96,10 @@ pub assume_specification<T, P: FnOnce(&T) -> bool> [Option::<T>::filter] (o: Opt
     ensures o is None ==> r is None,
             o is Some ==> (r is Some ==> r == o && p.ensures((&o->Some_0,), true)) && (r is None ==> p.ensures((&o->Some_0,), false));
 
+//@fn src/debugger/mod.rs - is_call ret=r props=C10
+        ensures r == is_call_spec(instr),
+//@end
+
 impl SignificantInstr {
 //@fn src/debugger/mod.rs "impl TryFrom<u16> for SignificantInstr" try_from ret=r props=C10,C16,C09
 //@sigsub <<<Result<Self, Self::Error>>>> ==> <<<core::result::Result<Self, ()>>>>
@@ -229,7 +233,7 @@ impl Debugger {
             cmd_of(*old(self)) is Continue ==> *final(state) == *old(state) && same_bps(*old(self), *final(self))
                 && final(self).status == (if at_halt(*old(state)) { Status::WaitForAction } else { Status::Continue }),
             cmd_of(*old(self)) is StepOver ==> *final(state) == *old(state) && same_bps(*old(self), *final(self))
-                && final(self).status == (if at_halt(*old(state)) { Status::WaitForAction } else { Status::StepOver { return_addr: add16(old(state).pc, 1) } }),
+                && final(self).status == (if at_halt(*old(state)) { Status::WaitForAction } else { resume_status(Command::StepOver, *old(state)) }),
             cmd_of(*old(self)) matches Command::StepInto { count } ==> *final(state) == *old(state) && same_bps(*old(self), *final(self))
                 && final(self).status == (if at_halt(*old(state)) { Status::WaitForAction } else { Status::StepInto { count: (count - 1) as u16 } }),
             // C18: `step out` is tied to the stack feature flag as coded
